@@ -137,7 +137,7 @@ func info() propInfo {
 	return propInfo{}
 }
 
-var panicFrameRe = regexp.MustCompile(`github\.com/vmware/go-ipfix/(pkg|cmd)/([A-Za-z0-9_/]+)\.([^\s(]+)`)
+var panicFrameRe = regexp.MustCompile(`github\.com/vmware/go-ipfix/(pkg|cmd)/([A-Za-z0-9_/]+)\.(\S+)`)
 
 // crashSig classifies the stderr of a dead worker.
 func crashSig(stderr string) (sig string, isRepo bool) {
@@ -171,7 +171,11 @@ func crashSig(stderr string) (sig string, isRepo bool) {
 			}
 			continue
 		}
-		return m[2] + "." + strings.TrimSuffix(m[3], "(...)"), true
+		fn := m[3]
+		if i := strings.LastIndex(fn, "("); i > 0 {
+			fn = fn[:i]
+		}
+		return m[2] + "." + fn, true
 	}
 	return "", false
 }
@@ -282,6 +286,9 @@ func runLayer(layer string, total int, capSecs int) *layerTotals {
 				r := merge(resPath)
 				if err == nil || (layer == "race" && exitCode(err) == 66) {
 					return
+				}
+				if r != nil && r.Runs >= n {
+					return // the batch completed; a failing exit status comes from the test framework (e.g. a recovered bubble deadlock)
 				}
 				// the worker died: attribute to the journalled plan
 				jpath := filepath.Join(outDir, fmt.Sprintf("journal-%s-%d.json", layer, w))
